@@ -1427,7 +1427,7 @@ func c07FilterCase(c *core.Ctx, fc *c07Filter) bool {
 
 func c07Filters(c *core.Ctx) {
 	r := c.Rng
-	for i := 0; i < c.N(400, 5000); i++ {
+	for i := 0; i < c.N(400, 2000); i++ {
 		fc := &c07Filter{Kind: "filter", Bulk: i%2 == 0}
 		fc.N = []int{1, 1, 2, 3, 7, 8, 16, 33, 100}[r.Intn(9)]
 		if i%50 == 49 {
@@ -1578,7 +1578,7 @@ var _ encoding.Encoding = parquet.SplitBlockFilter(10, "x").Encoding()
 func c07Encodes(c *core.Ctx) {
 	r := c.Rng
 	types := []string{"bool", "i32", "i64", "i96", "f32", "f64", "ba", "flba"}
-	for i := 0; i < c.N(400, 4000); i++ {
+	for i := 0; i < c.N(400, 2000); i++ {
 		ec := &c07Encode{Kind: "encode", Type: types[i%len(types)], N: []int{1, 2, 5, 16}[r.Intn(4)]}
 		k := r.Intn(20)
 		if i%9 == 0 {
@@ -1684,7 +1684,7 @@ func runC07(c *core.Ctx) {
 	defer func() {
 		c.Note("time: hashes %.1fs, filters %.1fs, encodes %.1fs, files %.1fs", t1.Sub(t0).Seconds(), t2.Sub(t1).Seconds(), t3.Sub(t2).Seconds(), time.Since(t3).Seconds())
 	}()
-	nFiles := c.N(70, 700)
+	nFiles := c.N(70, 280)
 	for i := 0; i < nFiles; i++ {
 		cs := c07GenFile(c, i)
 		c07FileCase(c, cs)
